@@ -153,6 +153,11 @@ func (f *FakeSup) Kill(_ context.Context, r *supvmodel.KillRequest) error {
 		f.L.Add("sup kill-unknown:%s", r.Name)
 		return &supvmodel.SupervisorError{Kind: supvmodel.NoSuchEntity}
 	}
+	if !p.exited && !r.Deadline.After(time.Now()) {
+		// as the local supervisor (C19): a deadline that is already over is refused, nothing is signalled
+		f.L.Add("sup kill-baddeadline:%s", r.Name)
+		return fmt.Errorf("invalid timeout while killing %s", r.Name)
+	}
 	f.L.Add("sup kill:%s", r.Name)
 	if !p.exited {
 		s := int32(9)
